@@ -8,6 +8,7 @@ import Dippy.Model.Analyzer
 import Dippy.Generated.Tables
 import Dippy.Generated.Missing
 import Dippy.Lemmas.Walk
+import Dippy.Lemmas.Strip
 
 set_option linter.unusedSimpArgs false
 
@@ -180,5 +181,45 @@ theorem no_missing_tables : Generated.missingTables = [] := by decide
 theorem strip_is_bash_blank : Generated.Quoting.analyzeStripChars = " \t\n" := by decide
 
 example : stripCmd "\x0cls" = "\x0cls" ∧ stripCmd " ls \n" = "ls" ∧ stripCmd "\t\u00a0ls" = "\u00a0ls" := by decide +kernel
+
+/-- the predicate `strip` uses is membership in exactly these three characters -/
+theorem strip_pred (c : Char) :
+    (Generated.Quoting.analyzeStripChars.toList.contains c = true) ↔ (c = ' ' ∨ c = '\t' ∨ c = '\n') := by
+  rw [strip_is_bash_blank]
+  simp [List.contains_eq_mem]
+
+/-- for every command text: the text that is parsed is the command without a prefix and a suffix that consist of blanks,
+    tabs and newlines only – nothing inside the command is removed and no other character is ever dropped -/
+theorem strip_removes_only_blanks (s : String) :
+    ∃ pre suf, s.toList = pre ++ (stripCmd s).toList ++ suf ∧
+      ∀ c ∈ pre ++ suf, c = ' ' ∨ c = '\t' ∨ c = '\n' := by
+  obtain ⟨pre, suf, h1, h2, h3⟩ :=
+    Py.stripL_split (fun c => Generated.Quoting.analyzeStripChars.toList.contains c) s.toList
+  refine ⟨pre, suf, ?_, ?_⟩
+  · simpa [stripCmd, Py.stripChars] using h1
+  · intro c hc
+    rcases List.mem_append.mp hc with hc | hc
+    · exact (strip_pred c).mp (h2 c hc)
+    · exact (strip_pred c).mp (h3 c hc)
+
+/-- … and what is parsed neither begins nor ends with one of them (the parser never sees outer blanks) -/
+theorem strip_ends_clean (s : String) (c : Char)
+    (hc : (stripCmd s).toList.head? = some c ∨ (stripCmd s).toList.getLast? = some c) :
+    c ≠ ' ' ∧ c ≠ '\t' ∧ c ≠ '\n' := by
+  have hp : Generated.Quoting.analyzeStripChars.toList.contains c = false := by
+    simp only [stripCmd, Py.stripChars, String.toList_ofList] at hc
+    rcases hc with hc | hc
+    · exact Py.stripL_head _ s.toList c hc
+    · exact Py.stripL_last _ s.toList c hc
+  refine ⟨fun h => ?_, fun h => ?_, fun h => ?_⟩ <;>
+    (have := (strip_pred c).mpr (by simp [h]); rw [hp] at this; cases this)
+
+/-- stripping is idempotent: a nested `analyze` of an already stripped text (`bash -c`, wrappers) parses the same text -/
+theorem strip_idem (s : String) : stripCmd (stripCmd s) = stripCmd s := by
+  simp only [stripCmd, Py.stripChars, String.toList_ofList]
+  rw [Py.stripL_idem]
+
+example : ∃ pre suf, " \tls -l\n".toList = pre ++ (stripCmd " \tls -l\n").toList ++ suf ∧ pre = [' ', '\t'] ∧ suf = ['\n'] :=
+  ⟨[' ', '\t'], ['\n'], by decide +kernel, rfl, rfl⟩
 
 end Dippy.C05
